@@ -17,8 +17,11 @@ import (
 	sdk "github.com/cosmos/cosmos-sdk/types"
 
 	"github.com/kava-labs/kava/app"
+	auctionkeeper "github.com/kava-labs/kava/x/auction/keeper"
+	auctiontypes "github.com/kava-labs/kava/x/auction/types"
 	bep3types "github.com/kava-labs/kava/x/bep3/types"
 	cdptypes "github.com/kava-labs/kava/x/cdp/types"
+	hardtypes "github.com/kava-labs/kava/x/hard/types"
 )
 
 // ExtendedInvariants returns the first violated predicate ("" when all hold).
@@ -36,6 +39,145 @@ func ExtendedInvariants(tApp app.TestApp, ctx sdk.Context) (name, msg string) {
 	}
 	if n, m := bep3Index(tApp, ctx); n != "" {
 		return n, m
+	}
+	if n, m := auctionInvariants(tApp, ctx); n != "" {
+		return n, m
+	}
+	if n, m := hardInterestFactors(tApp, ctx); n != "" {
+		return n, m
+	}
+	if n, m := bep3Supply(tApp, ctx); n != "" {
+		return n, m
+	}
+	return "", ""
+}
+
+// auctionInvariants evaluates the three invariants that x/auction defines in
+// keeper/invariants.go but never registers with the crisis keeper (module-account
+// custody, every stored auction passes Validate(), by-time index <-> store), and
+// Validate() of every stored auction directly.
+func auctionInvariants(tApp app.TestApp, ctx sdk.Context) (string, string) {
+	k := tApp.GetAuctionKeeper()
+	for _, a := range k.GetAllAuctions(ctx) {
+		ga, ok := a.(auctiontypes.GenesisAuction)
+		if !ok {
+			return "auction/stored-auction-type", fmt.Sprintf("auction %d of type %T is not a GenesisAuction", a.GetID(), a)
+		}
+		if err := ga.Validate(); err != nil {
+			return "auction/stored-auction-invalid", fmt.Sprintf("auction %d: %v", a.GetID(), err)
+		}
+	}
+	if m, broken := auctionkeeper.ModuleAccountInvariants(k)(ctx); broken {
+		return "auction/module-account", m
+	}
+	if m, broken := auctionkeeper.ValidAuctionInvariant(k)(ctx); broken {
+		return "auction/valid-auctions", m
+	}
+	if m, broken := auctionkeeper.ValidIndexInvariant(k)(ctx); broken {
+		return "auction/valid-index", m
+	}
+	return "", ""
+}
+
+// hardInterestFactors: for every money market in the store the global supply and
+// borrow interest factors, when set, are >= 1, and so is every per-position index of
+// a denom whose market exists.
+func hardInterestFactors(tApp app.TestApp, ctx sdk.Context) (string, string) {
+	k := tApp.GetHardKeeper()
+	one := sdk.OneDec()
+	have := map[string]bool{}
+	for _, mm := range k.GetAllMoneyMarkets(ctx) {
+		have[mm.Denom] = true
+		if f, ok := k.GetBorrowInterestFactor(ctx, mm.Denom); ok && f.LT(one) {
+			return "hard/borrow-interest-factor-below-one", fmt.Sprintf("%s: %s", mm.Denom, f)
+		}
+		if f, ok := k.GetSupplyInterestFactor(ctx, mm.Denom); ok && f.LT(one) {
+			return "hard/supply-interest-factor-below-one", fmt.Sprintf("%s: %s", mm.Denom, f)
+		}
+	}
+	var name, msg string
+	k.IterateDeposits(ctx, func(dep hardtypes.Deposit) bool {
+		for _, ix := range dep.Index {
+			if have[ix.Denom] && ix.Value.LT(one) {
+				name, msg = "hard/deposit-index-below-one", fmt.Sprintf("%s %s: %s", dep.Depositor, ix.Denom, ix.Value)
+				return true
+			}
+		}
+		for _, c := range dep.Amount {
+			if c.Amount.IsNegative() {
+				name, msg = "hard/negative-deposit", fmt.Sprintf("%s %s", dep.Depositor, c)
+				return true
+			}
+		}
+		return false
+	})
+	if name != "" {
+		return name, msg
+	}
+	k.IterateBorrows(ctx, func(b hardtypes.Borrow) bool {
+		for _, ix := range b.Index {
+			if have[ix.Denom] && ix.Value.LT(one) {
+				name, msg = "hard/borrow-index-below-one", fmt.Sprintf("%s %s: %s", b.Borrower, ix.Denom, ix.Value)
+				return true
+			}
+		}
+		for _, c := range b.Amount {
+			if c.Amount.IsNegative() {
+				name, msg = "hard/negative-borrow", fmt.Sprintf("%s %s", b.Borrower, c)
+				return true
+			}
+		}
+		return false
+	})
+	return name, msg
+}
+
+// bep3Supply: the module account holds exactly the outgoing swaps that are not yet
+// closed, and the recorded incoming / outgoing supplies equal the sums over the swap
+// records (the counters of C13, on the whole-chain state).
+func bep3Supply(tApp app.TestApp, ctx sdk.Context) (string, string) {
+	k := tApp.GetBep3Keeper()
+	inc, out := map[string]sdkmath.Int{}, map[string]sdkmath.Int{}
+	add := func(m map[string]sdkmath.Int, c sdk.Coin) {
+		cur, ok := m[c.Denom]
+		if !ok {
+			cur = sdkmath.ZeroInt()
+		}
+		m[c.Denom] = cur.Add(c.Amount)
+	}
+	for _, s := range k.GetAllAtomicSwaps(ctx) {
+		if s.Status == bep3types.SWAP_STATUS_COMPLETED {
+			continue
+		}
+		for _, c := range s.Amount {
+			if s.Direction == bep3types.SWAP_DIRECTION_INCOMING {
+				add(inc, c)
+			} else {
+				add(out, c)
+			}
+		}
+	}
+	macc := tApp.GetAccountKeeper().GetModuleAddress(bep3types.ModuleName)
+	for _, sp := range k.GetAllAssetSupplies(ctx) {
+		dn := sp.GetDenom()
+		get := func(m map[string]sdkmath.Int) sdkmath.Int {
+			if v, ok := m[dn]; ok {
+				return v
+			}
+			return sdkmath.ZeroInt()
+		}
+		if !sp.IncomingSupply.Amount.Equal(get(inc)) {
+			return "bep3/incoming-supply-differs-from-swaps", fmt.Sprintf("%s: incoming supply %s, live incoming swaps %s", dn, sp.IncomingSupply.Amount, get(inc))
+		}
+		if !sp.OutgoingSupply.Amount.Equal(get(out)) {
+			return "bep3/outgoing-supply-differs-from-swaps", fmt.Sprintf("%s: outgoing supply %s, live outgoing swaps %s", dn, sp.OutgoingSupply.Amount, get(out))
+		}
+		if bal := tApp.GetBankKeeper().GetBalance(ctx, macc, dn).Amount; !bal.Equal(get(out)) {
+			return "bep3/module-balance-differs-from-open-outgoing", fmt.Sprintf("%s: module account holds %s, outgoing swaps not yet closed sum to %s", dn, bal, get(out))
+		}
+		if sp.OutgoingSupply.Amount.GT(sp.CurrentSupply.Amount) || sp.CurrentSupply.Amount.IsNegative() || sp.IncomingSupply.Amount.IsNegative() {
+			return "bep3/supply-counter-out-of-range", sp.String()
+		}
 	}
 	return "", ""
 }
